@@ -87,7 +87,7 @@ func signRaw(k *pki.Key, h uint8, msg []byte) []byte {
 
 // verifyStd: does ds verify over msg under k, by std crypto? The hash is the one
 // ds declares (any of the RFC 5246 hashes); the signature algorithm must be the
-// key's; the ECDSA signature must be exactly one DER ECDSA-Sig-Value.
+// key's; the ECDSA signature must start with one DER ECDSA-Sig-Value.
 func verifyStd(k *pki.Key, ds ct6962.DigitallySigned, msg []byte) bool {
 	ch, ok := stdHash(ds.Hash)
 	if !ok || ds.Sig != sigAlgOf(k) {
@@ -98,7 +98,22 @@ func verifyStd(k *pki.Key, ds ct6962.DigitallySigned, msg []byte) bool {
 	d := hh.Sum(nil)
 	switch pub := k.Priv.Public().(type) {
 	case *ecdsa.PublicKey:
-		return ecdsa.VerifyASN1(pub, d, ds.Signature)
+		// (C05) bytes after the complete DER SEQUENCE are ignored: cut the value at
+		// the length its header announces and verify exactly those bytes.
+		s := ds.Signature
+		if len(s) < 2 || s[0] != 0x30 {
+			return false
+		}
+		n := 2 + int(s[1])
+		if s[1] == 0x81 && len(s) >= 3 {
+			n = 3 + int(s[2])
+		} else if s[1] >= 0x80 {
+			return false
+		}
+		if len(s) < n {
+			return false
+		}
+		return ecdsa.VerifyASN1(pub, d, s[:n])
 	case *rsa.PublicKey:
 		return rsa.VerifyPKCS1v15(pub, ch, d, ds.Signature) == nil
 	}
@@ -321,7 +336,7 @@ func sigModes() []sigMode {
 		{name: "sig:over-wrong-signature-type", make: func(kc *keyCfg, m []byte) []byte { return honestDS(kc.k, hSHA256, flip(m, 1, 1)) }},
 		{name: "sig:over-version-1", make: func(kc *keyCfg, m []byte) []byte { return honestDS(kc.k, hSHA256, flip(m, 0, 1)) }},
 		{name: "sig:trailing-tls-byte-after-DigitallySigned", make: func(kc *keyCfg, m []byte) []byte { return append(honestDS(kc.k, hSHA256, m), 0) }},
-		{name: "sig:trailing-byte-inside-signature-opaque", make: func(kc *keyCfg, m []byte) []byte {
+		{name: "sig:trailing-byte-inside-signature-opaque", good: false, make: func(kc *keyCfg, m []byte) []byte {
 			return dsEnc(hSHA256, sigAlgOf(kc.k), append(append([]byte{}, signRaw(kc.k, hSHA256, m)...), 0))
 		}},
 		{name: "sig:ecdsa-long-form-length", make: func(kc *keyCfg, m []byte) []byte {
